@@ -54,12 +54,16 @@ def gen(rng, tier):
     for i in range(24 if tier != "thorough" else 200):
         fr = gen_dm.make_frame(rng)
         nrow = len(fr["columns"][0]["values"])
-        pool = rng.choice([["", "a", "b"], ["", "zz"], ["b", "", "a", "c"]])
+        pool = rng.choice([["", "a", "b"], ["", "zz"], ["b", "", "a", "c"], ["a\\b", "ab", "a"], ["a\\b", "ab", "a"]])
         vals = (pool * nrow)[:nrow]
         rng.shuffle(vals)
         kind_col = rng.choice(["str", "cat", "ordcat"])
         fr["columns"].append(dm.col("e", kind_col, vals, categories=pool if kind_col != "str" else None))
-        resp = rng.choice(["e['']", 'e[""]', "e['a']", "e"]) if "a" in pool else rng.choice(["e['']", 'e[""]', "e['zz']"])
+        if "a\\b" in pool:
+            # the characters between the quotes are the level, a backslash is a character like any other
+            resp = rng.choice(["e['a\\b']", 'e["a\\b"]', "e['ab']", "e"])
+        else:
+            resp = rng.choice(["e['']", 'e[""]', "e['a']", "e"]) if "a" in pool else rng.choice(["e['']", 'e[""]', "e['zz']"])
         rhs = gen_dm.rand_formula(rng, with_group=0.2, response="").split("~", 1)[1].strip()
         cases.append({"formula": f"{resp} ~ {rhs}", "frame": fr, "na": "drop", "kind": "cat" if resp == "e" else "level",
                       "resp": resp, "rhs": rhs, "tag": "empty-level"})
